@@ -130,7 +130,7 @@ func moClassify(c *Ctx, a *flAgg, p *packages.Package, f *ast.File, fd *ast.Func
 	pos := st.Pos()
 	// (A) any-match: the body only declares locals from pure expressions and
 	// returns constants under conditions; the function returns a constant after.
-	if moAnyMatch(p, st) {
+	if moAnyMatch(p, st) || moAnyMatchSSA(c, st.For) {
 		a.ok("MO-range", key, "class A (any-match): the loop only returns a constant when some entry satisfies a condition; the result does not depend on the visiting order", pos)
 		return
 	}
@@ -145,7 +145,7 @@ func moClassify(c *Ctx, a *flAgg, p *packages.Package, f *ast.File, fd *ast.Func
 		}
 	}
 	// (D) the bucket lookup of Aggregate: first match wins, unique by equivalence
-	if fn == "Snapshot.Aggregate" && moLookupLoop(c, st) {
+	if (fn == "Snapshot.Aggregate" || moCalledFromAggregate(c, fn)) && moLookupLoop(c, st) {
 		dep := []string{}
 		for _, e := range []string{"EQ", "AG"} {
 			for _, o := range c.run(engines[e]) {
@@ -537,4 +537,128 @@ func moOtherSources(c *Ctx, a *flAgg) {
 	if len(hits) == 0 {
 		a.ok("MO-source", "none", fmt.Sprintf("no math/rand, no clock other than the HTML creation time (%d), no select/goroutine in the library, no pointer formatting", okTime), token.NoPos)
 	}
+}
+
+// moAnyMatchSSA decides class A on the SSA form, whatever the statements
+// look like: the loop over the map at pos carries no state from one entry to
+// the next (no phi at its header, no store, map update, send or impure call
+// in its body), and every way out of it other than running out of entries is
+// a return of one and the same tuple of constants. The function then answers
+// "does some entry satisfy the condition", which no visiting order changes.
+func moAnyMatchSSA(c *Ctx, pos token.Pos) bool {
+	var fn *ssa.Function
+	var rng *ssa.Range
+	for _, pn := range []string{"stack", "stack/webstack", "internal"} {
+		for _, f := range c.L.SrcFuncs(pn) {
+			for _, b := range f.Blocks {
+				for _, in := range b.Instrs {
+					if r, ok := in.(*ssa.Range); ok && r.Pos() == pos {
+						fn, rng = f, r
+					}
+				}
+			}
+		}
+	}
+	if rng == nil {
+		return false
+	}
+	if _, isMap := rng.X.Type().Underlying().(*types.Map); !isMap {
+		return false
+	}
+	var header *ssa.BasicBlock
+	for _, u := range *rng.Referrers() {
+		if nx, ok := u.(*ssa.Next); ok {
+			if header != nil && header != nx.Block() {
+				return false
+			}
+			header = nx.Block()
+		}
+	}
+	var loop *loopInfo
+	for _, l := range naturalLoops(fn) {
+		if l.Header == header {
+			loop = l
+		}
+	}
+	if loop == nil {
+		return false
+	}
+	for _, in := range header.Instrs {
+		if _, ok := in.(*ssa.Phi); ok {
+			return false
+		}
+	}
+	for b := range loop.Body {
+		for _, in := range b.Instrs {
+			switch in := in.(type) {
+			case *ssa.Store, *ssa.MapUpdate, *ssa.Send, *ssa.Go, *ssa.Defer, *ssa.Panic, *ssa.Select, *ssa.RunDefers:
+				return false
+			case *ssa.Call:
+				if _, isB := in.Call.Value.(*ssa.Builtin); isB {
+					switch in.Call.Value.Name() {
+					case "len", "cap", "min", "max":
+						continue
+					}
+					return false
+				}
+				cal := in.Call.StaticCallee()
+				if cal == nil || !globalPurity.isPure(cal) {
+					return false
+				}
+			case *ssa.UnOp:
+				if in.Op == token.ARROW {
+					return false
+				}
+			}
+		}
+	}
+	var want []string
+	for b := range loop.Body {
+		for _, s := range b.Succs {
+			if loop.Body[s] || b == header {
+				continue
+			}
+			// an early exit: the target only returns constants
+			if len(s.Instrs) != 1 {
+				return false
+			}
+			ret, ok := s.Instrs[0].(*ssa.Return)
+			if !ok {
+				return false
+			}
+			var got []string
+			for _, r := range ret.Results {
+				k, ok := r.(*ssa.Const)
+				if !ok {
+					return false
+				}
+				got = append(got, k.String())
+			}
+			if want == nil {
+				want = got
+			} else if strings.Join(want, ",") != strings.Join(got, ",") {
+				return false
+			}
+		}
+	}
+	return true
+}
+
+// moCalledFromAggregate: name is a function of package stack that Aggregate
+// calls directly (the grouping loop moved into a helper; AG decides it there).
+func moCalledFromAggregate(c *Ctx, name string) bool {
+	ag := c.L.Func("stack", "Snapshot", "Aggregate")
+	if ag == nil {
+		return false
+	}
+	for _, b := range ag.Blocks {
+		for _, in := range b.Instrs {
+			if call, ok := in.(*ssa.Call); ok {
+				if g := call.Call.StaticCallee(); g != nil && g.Pkg == ag.Pkg && g.Signature.Recv() == nil && g.Name() == name {
+					return true
+				}
+			}
+		}
+	}
+	return false
 }
